@@ -226,6 +226,14 @@ def temp_profile(spec, N):
         return Isothermal(T=float(spec[1]))
     if spec[0] == 'array':
         return TemperatureArray(tp_array=list(spec[1]))
+    if spec[0] == 'npoint':
+        # three-node profile, no smoothing: the interior node sits between the two topmost layer pressures when
+        # spec[1] is given as that pressure, so that T_top moves the top layer alone and T_surface the lowest layers
+        from taurex.data.profiles.temperature import NPoint
+        kw = dict(T_surface=1600.0, T_top=700.0, temperature_points=[1000.0], pressure_points=[float(spec[1])],
+                  smoothing_window=0)
+        kw.update(spec[2] if len(spec) > 2 else {})
+        return NPoint(**kw)
     name = spec[0]
     if name == 'dec':
         arr = np.linspace(1800.0, 600.0, N)
